@@ -113,8 +113,15 @@ def main():
     # several processes, each a slice of the list (first-use races exist once per process; slices keep the wall time low)
     nproc = 8 if quick else 16
     sweep_jobs = []
+    # ThreadSanitizer is a happens-before detector: a lock handed from one thread to another orders everything the first thread did
+    # before.  The quadrature mutex of the double-beta initialisations would thus hide a race between two background schemes that the
+    # threads visit at different times - so the background names and the double-beta cells go to separate processes
+    nb = len(schemes.background_names())
+    bpart, dpart = slines[:nb], slines[nb:]
+    pb = nproc // 2
+    slices = [bpart[k::pb] for k in range(pb)] + [dpart[k::(nproc - pb)] for k in range(nproc - pb)]
     for p in range(nproc):
-        sl = slines[p::nproc]
+        sl = slices[p]
         path = os.path.join(build.variant_dir("tsan"), "c12_sweep_%d_%d.spec" % (os.getpid(), p))
         open(path, "w").write("\n".join(sl) + "\n")
         sweep_jobs.append((p, [2, 4][p % 2], path, len(sl)))
